@@ -40,6 +40,8 @@ def equate(a: Quantity, b: Quantity) -> None:
     _ratios[a.unit][b.unit] = _div(b.magnitude, a.magnitude)
     _ratios[b.unit][a.unit] = _div(a.magnitude, b.magnitude)
 
+    _forget_plans()
+
 
 def translate(scale: Unit, zero: Quantity) -> None:
     """Defines a unit as a scale starting from the given zero point in another
@@ -55,6 +57,15 @@ def translate(scale: Unit, zero: Quantity) -> None:
 
     _offsets[degree][scale] = -offset
     _offsets[scale][degree] = +offset
+
+    _forget_plans()
+
+
+def _forget_plans() -> None:
+    """Plans and paths are memoized over the tables above, so they are only valid
+    until the next definition"""
+    _plan_conversion.cache_clear()
+    _find_path.cache_clear()
 
 
 class ConversionNotFound(ValueError):
